@@ -55,6 +55,10 @@ func totpWindow(key []byte, step, s uint64, d, a int) []string {
 
 func totpValidate(c c04Case, key []byte, window []string, pairMode bool) (obs, bad string) {
 	ok, err, p := callValidateTOTP(c)
+	if p == fuseMsg {
+		addSuspect(c) // decided sequentially by totpSuspects
+		return "cut-off", ""
+	}
 	if p != "" {
 		return "panic:" + p, "panicked: " + p
 	}
@@ -90,7 +94,31 @@ func totpValidate(c c04Case, key []byte, window []string, pairMode bool) (obs, b
 	return obs, ""
 }
 
+// totpSuspects decides the cut-off calls exactly (see hotpSuspects).
+func totpSuspects(r *ev.Run) {
+	for _, x := range takeSuspects() {
+		c, ok := x.(c04Case)
+		if !ok {
+			continue
+		}
+		n := countDerivations(func() { callValidateTOTP(c) })
+		s := c.Skew
+		if c.Nil {
+			s = 0
+		}
+		lim := int64(2*s + 1)
+		if s > 10 {
+			lim = 0
+		}
+		if n > lim {
+			r.Fail("totp-validate-work", fmt.Sprintf("skew=%d period=%d t=%d code=%q: validation does not end within %d derivations (the window holds %d candidates)", s, c.Period, c.Unix, trunc80(c.Code), n, lim), c, fmt.Sprintf("at most %d derivations and a verdict", lim), fmt.Sprint(n, " derivations"))
+		}
+	}
+}
+
 func c04(r *ev.Run, pairMode bool) {
+	installFuse()
+	defer totpSuspects(r)
 	scen := "totp-validate"
 	r.Scenario(scen, func(raw []byte) (string, string) {
 		c := unjson[c04Case](raw)
@@ -128,6 +156,18 @@ func c04(r *ev.Run, pairMode bool) {
 		}
 		return fmt.Sprint(n), ""
 	})
+	{
+		k := []byte("12345678901234567890")
+		sp := ref.B32Encode(k)
+		var cs []c04Case
+		for _, t := range []int64{1111111109, 20000000000} {
+			for dist := int64(-3); dist <= 3; dist++ {
+				cs = append(cs, c04Case{sp, ref.HOTP(k, ref.Step(t+30*dist, 30), 6, 0), t, 0, 30, 2, 6, 0, false})
+			}
+			cs = append(cs, c04Case{sp, ref.HOTP(k, ref.Step(t, 60), 8, 1), t, 1, 60, 0, 8, 1, false}, c04Case{sp, "000000", t, 0, 0, 10, 6, 0, false}, c04Case{Secret: sp, Code: ref.HOTP(k, ref.Step(t, 30), 6, 0), Unix: t, Nil: true})
+		}
+		afterWarmups(r, "totp-validate-after-other-operations", cs, func(c c04Case) (string, string) { return totpValidate(c, k, nil, pairMode) })
+	}
 	if ReplayOnly {
 		return
 	}
@@ -170,6 +210,25 @@ func c04(r *ev.Run, pairMode bool) {
 								cfgs = append(cfgs, cfg{key, sec, int64(t), p, s, d, a, int(t+uint64(d)) % 32})
 							}
 						}
+					}
+				}
+			}
+		}
+	}
+	// windows straddling every binary carry of the step number (2^k-1 | 2^k) that is reachable below t = 2^62
+	for k := uint(1); k <= 61; k++ {
+		for _, p := range []uint64{1, 0, 30, 60} {
+			m := p
+			if m == 0 {
+				m = 30
+			}
+			for _, s := range []uint64{0, 1, 2, 10} {
+				for _, n := range []uint64{1<<k - 1, 1 << k} {
+					if n < s || (n+1)*m-1 > max62 {
+						continue
+					}
+					for _, rr := range []uint64{0, m - 1} {
+						cfgs = append(cfgs, cfg{keys[0], spellings(keys[0])[0], int64(n*m + rr), p, s, 6, int(k % 3), int(k) % 32})
 					}
 				}
 			}
